@@ -23,6 +23,7 @@ static jmp_buf cut_jmp;
 #endif
 static unsigned seen_symbol, seen_len, seen;
 #define VERIF_POINT(id, arg) verif_point_##id(arg)
+#define verif_point_SELECTOR(j) ((void)0)
 #define verif_point_DELTA_DONE(rs) ((void)0)
 #define verif_point_HEADER_DONE(rs) ((void)0)
 #define verif_point_SYMBOL_FAST(x) ((void)0)
